@@ -124,17 +124,18 @@ theorem c03_partial : C03_for C01.tr := by
     cases heq
     exact wellScoped_sound _ _ (C03.Frag.tr_wellScoped km s _ hst)
 
-/-- THE PROVED PART, stages S1 and S2a (one directed hop): the model translator `tr2` only produces closed statements -/
-theorem c03_partial_S2 : C03_for C01.tr2 := by
+/-- THE PROVED PART, stages S1 and S2 (one directed hop with WHERE), for EVERY join-order choice of the hop: the model translator only
+produces closed statements -/
+theorem c03_partial_S2 (flipOf : C01.S2.Query → Bool) : C03_for (C01.tr2F flipOf) := by
   intro km q st ps h
-  obtain ⟨hw, hps⟩ := C03.Frag.tr2_wellScoped km q st ps h
+  obtain ⟨hw, hps⟩ := C03.Frag.tr2_wellScoped flipOf km q st ps h
   subst hps
   exact wellScoped_sound _ _ hw
 
-/-- the binder's verdict itself (stronger than resolution: also no missing parameter, no CTE arity mismatch) for every `tr2` statement -/
-theorem tr_wellScoped (km : KindMap) (q : Cy.Query) (st : Stmt) (ps : List (String × Val)) (h : C01.tr2 km q = some (st, ps)) :
-    wellScoped ⟨schema, ps.map (·.1), false⟩ st = true := by
-  obtain ⟨hw, hps⟩ := C03.Frag.tr2_wellScoped km q st ps h
+/-- the binder's verdict itself (stronger than resolution: also no missing parameter, no CTE arity mismatch) for every `tr2F` statement -/
+theorem tr_wellScoped (flipOf : C01.S2.Query → Bool) (km : KindMap) (q : Cy.Query) (st : Stmt) (ps : List (String × Val))
+    (h : C01.tr2F flipOf km q = some (st, ps)) : wellScoped ⟨schema, ps.map (·.1), false⟩ st = true := by
+  obtain ⟨hw, hps⟩ := C03.Frag.tr2_wellScoped flipOf km q st ps h
   subst hps
   exact hw
 
